@@ -208,7 +208,9 @@ def inputs(tier):
                   # the same header name in two include directories which two platforms search in opposite order; pc compiles
                   # sel.c without any -I: <settings.h> is not found for it, and only for it
                   "ia/settings.h": "#define FROM_A\nint sa;\n", "ib/settings.h": "#define FROM_B\nint sb;\nint sb2;\n",
-                  "sel.c": "#include <settings.h>\n#ifdef FROM_A\nint fa;\n#endif\n#ifdef FROM_B\nint fb;\n#endif\n"},
+                  "ia/opts.h": "#define OPT_A\nint oa;\n", "ib/opts.h": "int ob;\nint ob2;\n#define OPT_B\n",      # the same, reached with the quote form
+                  "sel.c": "#include <settings.h>\n#ifdef FROM_A\nint fa;\n#endif\n#ifdef FROM_B\nint fb;\n#endif\n"
+                           "#include \"opts.h\"\n#ifdef OPT_A\nint oa_used;\n#endif\n#ifdef OPT_B\nint ob_used;\n#endif\n"},
         "links": {"s/lq.c": "q.c"},
         "platforms": {"pa": [{"file": "m.c", "args": ["-DA"]}, {"file": "s/p.c", "args": []}, {"file": "sel.c", "args": ["-Iia", "-Iib"]}],
                       "pb": [{"file": "m.c", "args": ["-DB"]}, {"file": "s/q.c", "args": []}, {"file": "sel.c", "args": ["-Iib", "-Iia"]}],
